@@ -47,6 +47,19 @@ Theorem C14_no_stranding_with_readers : forall w c rd rf sched,
 Proof. exact drained_any_population_with_readers. Qed.
 Print Assumptions C14_no_stranding_with_readers.
 
+(* ... and any number of callers of the OTHER operations that take the eviction lock: GetMaximum / WeightedSize
+   (g: Lock, maintenance only if the status is "required", Unlock, rescheduleCleanUpIfIncomplete) and
+   InvalidateAll (iv: Lock, its own loop over the write buffer without touching the status, Unlock,
+   rescheduleCleanUpIfIncomplete); SetMaximum and the Hottest / Coldest views run the CleanUp caller's
+   program (Lock, maintenance, Unlock, reschedule) and are the c of the statement.  A writer that finds
+   the lock held by one of them gives up at TryLock; the statement holds because each of them looks at
+   the status again after unlocking — without that step the invariant's clause "a required status has a
+   thread that will act on it" fails (this is how F14 and F17 strand maintenance in the code) *)
+Theorem C14_no_stranding_with_lock_holders : forall w c rd rf g iv sched,
+  let s := run_sched (dinitA w c rd rf g iv) sched in terminal s = true -> drained s = true.
+Proof. exact drained_any_population_with_lock_holders. Qed.
+Print Assumptions C14_no_stranding_with_lock_holders.
+
 (* the invariant behind it holds in every reachable configuration: in particular the eviction lock
    has exactly one owner when held and none when free, and a status of "processing" or "required"
    always has a thread that will act on it *)
